@@ -9,7 +9,7 @@
 //   op add_op    g preset       (0 = null pointer)
 //   op init      g stream cancel_at allocfail_at eio_at_read
 //   op shoot     g stream slot cancel_at
-//   op reset     g
+//   op reset     g            | dump g (smart_dump + read-only accessors: must change nothing)
 //   op ga_put    nuc proc dataset cut     (install a gA dataset in SimFS; cut>=0: torn at byte cut)
 //   op ga_del    nuc proc
 //
@@ -329,6 +329,12 @@ Outcome run_proto(const Plan & plan, const RunCtx & ctx)
         outcome = "shot-failed";
       }
       if (outcome != "refused") last[gi] = ok ? "shot" : "shot-failed";
+    } else if (op.k == "dump") {
+      // observers must be callable in every state and change nothing (the getter check below verifies that)
+      std::ostringstream sink;
+      try { g.smart_dump(sink, "title", "  "); (void)g.get_bb_params(); (void)g.get_to_all_events(); }
+      catch (std::exception & e) { violation(oi, "observer-threw", std::string("smart_dump()/get_bb_params() threw: ") + e.what()); }
+      tr.add(sink.str().size() > 0);
     } else if (op.k == "reset") {
       bool was = m.init;
       try { g.reset(); } catch (std::exception & e) { violation(oi, "reset-threw", e.what()); }
@@ -394,7 +400,8 @@ Op noise_op(Rng & r, int g)
     return mk("set_range", {g, -1, -1});
   }
   if (d < 61) return mk("set_ver", {g}, {r.chance(0.5) ? "1.0.0" : ""});
-  if (d < 67) return mk("add_op", {g, r.chance(0.3) ? 0 : r.range(1, mdl_presets())});
+  if (d < 65) return mk("add_op", {g, r.chance(0.3) ? 0 : r.range(1, mdl_presets())});
+  if (d < 67) return mk("dump", {g});
   if (d < 78) return mk("init", {g, (i64)r.below(1000), -1, -1, -1});
   if (d < 90) return mk("shoot", {g, (i64)r.below(8), (i64)r.below(NS), -1});
   if (d < 95) return mk("reset", {g});
